@@ -70,6 +70,11 @@ impl Recv {
                 return Err(TransportError::FINAL_SIZE_ERROR(""));
             }
         }
+        if frame.fin && end < self.end {
+            // A final size below the data already received (no final size was known so far)
+            debug!(end, received = self.end, "final size error");
+            return Err(TransportError::FINAL_SIZE_ERROR(""));
+        }
 
         let new_bytes = self.credit_consumed_by(end, received, max_data)?;
 
